@@ -4,7 +4,7 @@
    Proofs: Fold.v, CaseInsens.v, Anti.v, Total.v. *)
 From Coq Require Import List NArith Bool.
 Import ListNotations.
-Require Import Base.Wire Base.PyStr C03.Model C03.Fold C03.CaseInsens C03.Anti C03.Total C03.Reach.
+Require Import Base.Wire Base.PyStr C03.Model C03.Fold C03.CaseInsens C03.Anti C03.Total C03.Reach C03.Spec.
 
 (* No exception escapes for a well-formed capability (non-empty, no
    whitespace), whatever the database and the three ignore* flags. *)
@@ -81,3 +81,26 @@ Theorem C03_built_sets_ok :
   forall S, fold_left (fun r c => do acc <- r; cs_add acc c) cs (Ok []) = Ok S -> sets_ok S = true.
 Proof. exact built_sets_ok. Qed.
 Print Assumptions C03_built_sets_ok.
+
+(* The documented precedence.  [spec_pos] (C03/Spec.v) is the decision list of
+   the property text: the effective account (none if unknown or secure with a
+   non-matching hostmask); asking for 'owner' itself; an owner holds everything
+   (an ignored one nothing); an explicit user (anti)capability; for channel
+   capabilities channel-op status, the channel's explicit setting, the channel
+   default; otherwise the global default set, the registered-users set, the
+   global default flag.  For every database whose sets were built by add and
+   every (capability, anti-capability) pair of dom_cap, checkCapability computes
+   exactly that list for the capability -- and, by C03_anti_opposite, its
+   negation for the anti-capability. *)
+Theorem C03_refines_spec :
+  forall d p a, antipair p a -> db_ok d = true ->
+  checkCapability d p flags0 =
+  Ok (spec_pos d p a (match chan_parts p with Some (chn, x) => Some (chn, x, DASH :: x) | None => None end)).
+Proof. exact check_is_spec. Qed.
+Print Assumptions C03_refines_spec.
+
+(* every non-anti capability of dom_cap forms such a pair with its anti-capability *)
+Theorem C03_dom_gives_pair :
+  forall c a, dom_cap c = true -> isAntiCapability c = false -> makeAntiCapability c = Ok a -> antipair c a.
+Proof. exact makeAnti_antipair. Qed.
+Print Assumptions C03_dom_gives_pair.
